@@ -26,6 +26,18 @@ def run(ctx, rep):
     write_rules(ctx, rep)
     who_may_write(ctx, rep)
     adaptors(ctx, rep)
+    # "its complete encoded frame, contiguous": the buffer write() pushes at the transport is what Codec::encode returns - the
+    # size byte followed by exactly the bytes the packet writer produced, nothing in front, nothing behind (C03's R3.4 replay
+    # of the encoder's path table over an abstract frame buffer: a pre-filled or over-long buffer would put stray bytes between
+    # two frames)
+    from props import c03_mir
+    before = len(rep.instances)
+    keep = dict(rep.floors)
+    c03_mir.run(ctx, rep)
+    rep.instances[before:] = [i for i in rep.instances[before:] if i["rule"] == "R3.4"]
+    for r_ in list(rep.floors):
+        if r_ not in keep and r_ != "R3.4":
+            rep.floors.pop(r_)
 
 
 def write_rules(ctx, rep, only=None):
